@@ -530,6 +530,12 @@ def _judge_again(w, cmds, again):
                     if a1[0] is not a2[0] or o1 != o2:
                         bad = "%s %s %s re-serialises to %s %s" % (nm, sc.node_str(w, a1[0]), o1, sc.node_str(w, a2[0]), o2)
                         break
+                if nm in ("set-info", "set-option", "get-info", "get-option", "echo", "push", "pop"):
+                    # attribute / keyword arguments are plain values: the reader of the re-serialised text must get them back
+                    p1, p2 = list(w.it.iterate(a1)), list(w.it.iterate(a2))
+                    if all(isinstance(v_, (str, int, bool)) for v_ in p1 + p2) and p1 != p2:
+                        bad = "%s %r re-serialises to %s %r" % (nm, p1, nm, p2)
+                        break
                 if nm == "assert" and a1 and a2 and a1[0] is not a2[0]:
                     try:
                         ok, why = textsem.equivalent(textsem.from_node(w, a1[0]), textsem.from_node(w, a2[0]))
